@@ -4,6 +4,7 @@ Three parts: (A) DistPacketGenerator against the generator model, (B) PacketSink
 (C) random pipelines of real elements with recording taps at every element boundary, checked by a direct
 conservation oracle (and, element by element, by the other properties' replays: C09-C15, C18).
 """
+from vlib.util import guarded_leg
 import collections, json, random
 from onl.sim import Environment
 from onl.packet import Packet, DistPacketGenerator, PacketSink
@@ -905,6 +906,7 @@ ASSUMPTIONS.append('network leg: every pipeline of (C) is run once more (same se
                    'every packet object according to the model is compared with the harness\'s own account (last tap record of the object, PacketSink totals)')
 
 
+@guarded_leg(lambda: ([], {}))
 def net_leg(ctx, pipe_cases):
     """-> (disagreements, coverage dict).  One delimited function: builds the topologies, exports the global event lists, replays, compares."""
     from onl.netdev.splitter import Splitter, NSplitter
